@@ -1,8 +1,1178 @@
 package main
 
+// e2e.go — end-to-end part of hC03: ONE eCorpus -> three forms of the same fraction built by the
+// REAL code: (A) active, (S) sealed from PreloadedData on the same manager, (R) sealed loaded from
+// its files by a second FracManager (possibly another CacheSize). The same batch of requests goes
+// to A, S, R; every request gives one case
+//
+//	CForm <kind>%N [active]%N [sealed]%N [reloaded]%N [oracle]%N
+//
+// where the four lists are the canonical answers (see canonSearch/canonFetch/compress) and the
+// oracle is computed by brute force from the document list only (no /repo code involved).
+// kind: 1 search desc, 2 search asc, 3 histogram, 4 aggregation (count group by), 5 fetch.
+//
+// Oracle independence: search, histogram, count-aggregation and fetch all have an independent
+// oracle. Two deliberate omissions from the canonical eAnswer (so that the oracle stays exact):
+//   - fetch lists with a repeated ID: the real Fetcher delivers the document at ONE of the
+//     positions of that ID (reversPos keeps the last); which position is a C04 matter, so every
+//     position of a repeated ID shows the document delivered at any of its positions;
+//   - aggregation bins without time series carry consts.DummyMID; rendered as 0.
+
 import (
+	"fmt"
+	"os"
+	"path/filepath"
+	"runtime"
+	"runtime/debug"
+	"sort"
+	"strings"
+	"sync"
+
+	"github.com/ozontech/seq-db/frac"
+	"github.com/ozontech/seq-db/frac/processor"
+	"github.com/ozontech/seq-db/fracmanager"
+	"github.com/ozontech/seq-db/parser"
+	"github.com/ozontech/seq-db/seq"
+
 	"verif/harness/internal/casefile"
+	"verif/harness/internal/fracbuild"
 	"verif/harness/internal/rng"
 )
 
-func runE2E(w *casefile.Writer, r *rng.R, tier string) {}
+const (
+	eLidCap   = 65536 // consts.LIDBlockCap
+	eIdsBlock = 4096  // consts.IDsBlockSize
+	eTokBlock = 16384 // consts.RegularBlockSize
+	eBaseMID  = 1_700_000_000_000
+)
+
+// ---------------------------------------------------------------- eCorpus
+
+type edoc struct {
+	mid, rid uint64
+	body     []byte
+	toks     []string // "field:value"
+}
+
+type ecfg struct {
+	SkipSortDocs bool   `json:"skip_sort_docs"`
+	Zstd         [6]int `json:"zstd_ids_lids_tokens_pos_table_docs"`
+	DocBlockSize int    `json:"doc_block_size"`
+	Cache1       uint64 `json:"cache_size"`
+	Cache2       uint64 `json:"cache_size_reloaded"`
+	Bulks        int    `json:"bulks"`
+	Order        int    `json:"arrival_order"` // 0 interleaved ascending, 1 contiguous descending, 2 shuffled
+}
+
+type eCorpus struct {
+	shape  string
+	params map[string]any
+	seed   uint64
+	docs   []edoc
+	cfg    ecfg
+	reqs   []ereq
+	fields []string        // every field used (keyword mapping)
+	posts  map[string]int  // "field:value" -> number of postings (harness bookkeeping for `nontrivial` only)
+	multi  map[string]bool // field -> its dictionary has more than one token block
+	sorted []int           // doc indexes by ID descending (LID order of the sealed fraction, LID = rank+1)
+}
+
+func (c *eCorpus) add(mid, rid uint64, body string, toks ...string) {
+	c.docs = append(c.docs, edoc{mid, rid, []byte(body), toks})
+}
+
+// finish computes the bookkeeping after all documents are generated.
+func (c *eCorpus) finish() {
+	c.posts, c.multi = map[string]int{}, map[string]bool{}
+	fs, size, seen := map[string]bool{}, map[string]int{}, map[string]bool{}
+	for _, d := range c.docs {
+		for _, t := range d.toks {
+			c.posts[t]++
+			f := t[:strings.IndexByte(t, ':')]
+			fs[f] = true
+			if !seen[t] {
+				seen[t] = true
+				size[f] += len(t) - len(f) - 1
+			}
+		}
+	}
+	c.posts["_all_:"] = len(c.docs)
+	for f := range fs {
+		c.fields = append(c.fields, f)
+		c.multi[f] = size[f] >= eTokBlock
+	}
+	sort.Strings(c.fields)
+	c.sorted = make([]int, len(c.docs))
+	for i := range c.sorted {
+		c.sorted[i] = i
+	}
+	sort.Slice(c.sorted, func(a, b int) bool { return eIdLess(c.docs[c.sorted[b]], c.docs[c.sorted[a]]) })
+}
+
+func eIdLess(a, b edoc) bool { return a.mid < b.mid || (a.mid == b.mid && a.rid < b.rid) }
+
+func eRid(i int) uint64 { return uint64(uint32(i)*2654435761) + 1 } // distinct for distinct i < 2^32
+
+func (c *eCorpus) mapping() seq.Mapping {
+	m := seq.Mapping{}
+	for _, f := range c.fields {
+		m[f] = seq.NewSingleType(seq.TokenizerTypeKeyword, "", 0)
+	}
+	return m
+}
+
+func eGenCfg(r *rng.R, ndocs int) ecfg {
+	lv := []int{1, 3, -1, 7}
+	c := ecfg{SkipSortDocs: r.Chance(1, 3), DocBlockSize: rng.Pick(r, []int{0, 256, 2048, 65536}),
+		Cache1: rng.Pick(r, []uint64{16 << 10, 64 << 10, 1 << 20, 1 << 28}),
+		Cache2: rng.Pick(r, []uint64{16 << 10, 256 << 10, 1 << 28}), Order: r.Intn(3)}
+	for i := range c.Zstd {
+		c.Zstd[i] = rng.Pick(r, lv)
+	}
+	c.Bulks = max(1, min(r.Range(2, 5), ndocs))
+	if ndocs > 40000 {
+		c.Bulks = (ndocs + 24999) / 25000
+	}
+	return c
+}
+
+func (c ecfg) mod(cache uint64) func(*fracmanager.Config) {
+	return func(fc *fracmanager.Config) {
+		fc.CacheSize = cache
+		fc.Fraction.SkipSortDocs = c.SkipSortDocs
+		fc.SealParams = frac.SealParams{IDsZstdLevel: c.Zstd[0], LIDsZstdLevel: c.Zstd[1], TokenListZstdLevel: c.Zstd[2],
+			DocsPositionsZstdLevel: c.Zstd[3], TokenTableZstdLevel: c.Zstd[4], DocBlocksZstdLevel: c.Zstd[5], DocBlockSize: c.DocBlockSize}
+	}
+}
+
+// ---------------------------------------------------------------- requests and the oracle
+
+// eExpr is a query: leaves are `tok` (f:A), `pre` (f:A*), `suf` (f:*A), `wild` (f:A*B), `all` (*).
+type eExpr struct {
+	Op   string
+	F    string
+	A, B string
+	L, R *eExpr
+}
+
+func eTok(f, v string) *eExpr { return &eExpr{Op: "tok", F: f, A: v} }
+func ePre(f, v string) *eExpr { return &eExpr{Op: "pre", F: f, A: v} }
+func eAnd(l, r *eExpr) *eExpr { return &eExpr{Op: "and", L: l, R: r} }
+func eOr(l, r *eExpr) *eExpr  { return &eExpr{Op: "or", L: l, R: r} }
+func eNot(l *eExpr) *eExpr    { return &eExpr{Op: "not", L: l} }
+func eAll() *eExpr            { return &eExpr{Op: "all"} }
+
+func (e *eExpr) text() string {
+	switch e.Op {
+	case "tok":
+		return e.F + ":" + e.A
+	case "pre":
+		return e.F + ":" + e.A + "*"
+	case "suf":
+		return e.F + ":*" + e.A
+	case "wild":
+		return e.F + ":" + e.A + "*" + e.B
+	case "all":
+		return "*"
+	case "not":
+		return "not (" + e.L.text() + ")"
+	}
+	return "(" + e.L.text() + ") " + e.Op + " (" + e.R.text() + ")"
+}
+
+func (e *eExpr) match(d *edoc) bool {
+	switch e.Op {
+	case "all":
+		return true
+	case "and":
+		return e.L.match(d) && e.R.match(d)
+	case "or":
+		return e.L.match(d) || e.R.match(d)
+	case "not":
+		return !e.L.match(d)
+	}
+	for _, t := range d.toks {
+		if len(t) <= len(e.F) || t[len(e.F)] != ':' || t[:len(e.F)] != e.F {
+			continue
+		}
+		v := t[len(e.F)+1:]
+		switch e.Op {
+		case "tok":
+			if v == e.A {
+				return true
+			}
+		case "pre":
+			if strings.HasPrefix(v, e.A) {
+				return true
+			}
+		case "suf":
+			if strings.HasSuffix(v, e.A) {
+				return true
+			}
+		case "wild":
+			if len(v) >= len(e.A)+len(e.B) && strings.HasPrefix(v, e.A) && strings.HasSuffix(v, e.B) {
+				return true
+			}
+		}
+	}
+	return false
+}
+
+// span: does the query touch a structure that spans an on-disk block border (for `nontrivial`)?
+func (e *eExpr) span(c *eCorpus) bool {
+	switch e.Op {
+	case "all":
+		return len(c.docs) > eLidCap
+	case "and", "or":
+		return e.L.span(c) || e.R.span(c)
+	case "not":
+		return e.L.span(c)
+	case "tok":
+		return c.posts[e.F+":"+e.A] > eLidCap || c.multi[e.F]
+	}
+	return c.multi[e.F]
+}
+
+type ereq struct {
+	Kind      int         `json:"kind"`
+	Text      string      `json:"query,omitempty"`
+	From      uint64      `json:"from,omitempty"`
+	To        uint64      `json:"to,omitempty"`
+	Limit     int         `json:"limit,omitempty"`
+	WithTotal bool        `json:"with_total,omitempty"`
+	Hist      uint64      `json:"hist_interval,omitempty"`
+	AggBy     string      `json:"agg_group_by,omitempty"`
+	AggIv     uint64      `json:"agg_interval,omitempty"`
+	IDs       [][2]uint64 `json:"ids,omitempty"`
+	Tag       string      `json:"tag,omitempty"`
+	e         *eExpr
+}
+
+// oracle: brute force over the documents.
+func (c *eCorpus) oracle(q *ereq) []uint64 {
+	if q.Kind == 5 {
+		byID := make(map[[2]uint64]*edoc, len(q.IDs))
+		want := map[[2]uint64]bool{}
+		for _, id := range q.IDs {
+			want[id] = true
+		}
+		for i := range c.docs {
+			if k := [2]uint64{c.docs[i].mid, c.docs[i].rid}; want[k] {
+				byID[k] = &c.docs[i]
+			}
+		}
+		out := make([][]byte, len(q.IDs))
+		for i, id := range q.IDs {
+			if d := byID[id]; d != nil {
+				out[i] = d.body
+			}
+		}
+		return eCanonFetch(q.IDs, out)
+	}
+	var hit []*edoc
+	for i := range c.docs {
+		if d := &c.docs[i]; d.mid >= q.From && d.mid <= q.To && q.e.match(d) {
+			hit = append(hit, d)
+		}
+	}
+	sort.Slice(hit, func(a, b int) bool {
+		if q.Kind == 2 {
+			return eIdLess(*hit[a], *hit[b])
+		}
+		return eIdLess(*hit[b], *hit[a])
+	})
+	a := eAnswer{}
+	if q.WithTotal {
+		a.total = uint64(len(hit))
+	}
+	for _, d := range hit[:min(len(hit), q.Limit)] {
+		a.ids = append(a.ids, [2]uint64{d.mid, d.rid})
+	}
+	if q.Hist > 0 {
+		a.hist = map[uint64]uint64{}
+		for _, d := range hit {
+			a.hist[d.mid-d.mid%q.Hist]++
+		}
+	}
+	if q.Kind == 4 {
+		a.bins = map[eAggKey]uint64{}
+		for _, d := range hit {
+			v, has := "", false
+			for _, t := range d.toks {
+				if strings.HasPrefix(t, q.AggBy+":") {
+					v, has = t[len(q.AggBy)+1:], true
+				}
+			}
+			if !has {
+				a.notExists++
+				continue
+			}
+			k := eAggKey{0, v}
+			if q.AggIv > 0 {
+				k.mid = d.mid - d.mid%q.AggIv
+			}
+			a.bins[k]++
+		}
+	}
+	return a.canon(q)
+}
+
+// ---------------------------------------------------------------- canonical answers
+
+type eAggKey struct {
+	mid uint64
+	tok string
+}
+
+type eAnswer struct {
+	total     uint64
+	ids       [][2]uint64
+	hist      map[uint64]uint64
+	bins      map[eAggKey]uint64
+	notExists uint64
+}
+
+func eChk(xs []uint64) (uint64, uint64) {
+	var a, b uint64 = 7, 11
+	for _, x := range xs {
+		x = (x ^ x>>31 ^ x>>47) & 0x7fffffff
+		a = (a*1000003 + x) & 0x7fffffff
+		b = (b*8191 + x*31 + 5) & 0x7fffffff
+	}
+	return a, b
+}
+
+func eChkBytes(b []byte) uint64 {
+	var a uint64 = 17
+	for _, x := range b {
+		a = (a*1000003 + uint64(x) + 1) & 0x7fffffff
+	}
+	return a
+}
+
+// compress keeps a list short: [888888, n, first 50, last 50, two checksums over everything].
+func eCompress(xs []uint64) []uint64 {
+	if len(xs) <= 140 {
+		return xs
+	}
+	a, b := eChk(xs)
+	out := append([]uint64{888888, uint64(len(xs))}, xs[:50]...)
+	out = append(out, xs[len(xs)-50:]...)
+	return append(out, a, b)
+}
+
+// canon: [total, #ids, mid,rid ..., (hist: #buckets, bucket,count ... ascending), (agg: notExists, #bins, mid,tokchk,count ... by token then mid)]
+func (a eAnswer) canon(q *ereq) []uint64 {
+	out := []uint64{a.total, uint64(len(a.ids))}
+	for _, id := range a.ids {
+		out = append(out, id[0], id[1])
+	}
+	if q.Hist > 0 {
+		ks := make([]uint64, 0, len(a.hist))
+		for k := range a.hist {
+			ks = append(ks, k)
+		}
+		sort.Slice(ks, func(i, j int) bool { return ks[i] < ks[j] })
+		out = append(out, uint64(len(ks)))
+		for _, k := range ks {
+			out = append(out, k, a.hist[k])
+		}
+	}
+	if q.Kind == 4 {
+		ks := make([]eAggKey, 0, len(a.bins))
+		for k := range a.bins {
+			ks = append(ks, k)
+		}
+		sort.Slice(ks, func(i, j int) bool {
+			return ks[i].tok < ks[j].tok || (ks[i].tok == ks[j].tok && ks[i].mid < ks[j].mid)
+		})
+		out = append(out, a.notExists, uint64(len(ks)))
+		for _, k := range ks {
+			out = append(out, k.mid, eChkBytes([]byte(k.tok)), a.bins[k])
+		}
+	}
+	return eCompress(out)
+}
+
+func eCanonFetch(ids [][2]uint64, docs [][]byte) []uint64 {
+	first := map[[2]uint64][]byte{} // a repeated ID shows the document delivered at any of its positions
+	for i, id := range ids {
+		if i < len(docs) && len(docs[i]) > 0 && first[id] == nil {
+			first[id] = docs[i]
+		}
+	}
+	out := []uint64{uint64(len(docs))}
+	for _, id := range ids {
+		if d := first[id]; len(d) > 0 {
+			out = append(out, uint64(len(d)), eChkBytes(d))
+		} else {
+			out = append(out, 0, 0)
+		}
+	}
+	return eCompress(out)
+}
+
+func eErrList(err error) []uint64 {
+	class := uint64(1)
+	if strings.Contains(err.Error(), "panicked") {
+		class = 2
+	}
+	return []uint64{999999, class}
+}
+
+func eLiteral(field string) *parser.Literal {
+	return &parser.Literal{Field: field, Terms: []parser.Term{{Kind: parser.TermSymbol, Data: "*"}}}
+}
+
+// ask sends one request to a form and canonicalises the eAnswer; a panic reaching us is reported.
+func eAsk(fracs fracmanager.List, m seq.Mapping, q *ereq) (out []uint64, what string) {
+	defer func() {
+		if p := recover(); p != nil {
+			out, what = []uint64{999999, 3}, fmt.Sprintf("panic: %v\n%s", p, debug.Stack())
+		}
+	}()
+	if q.Kind == 5 {
+		ids := make([]seq.ID, len(q.IDs))
+		for i, x := range q.IDs {
+			ids[i] = seq.ID{MID: seq.MID(x[0]), RID: seq.RID(x[1])}
+		}
+		docs, err := fracbuild.Fetch(fracs, ids)
+		if err != nil {
+			return eErrList(err), ""
+		}
+		return eCanonFetch(q.IDs, docs), ""
+	}
+	fq := fracbuild.Query{Text: q.Text, Mapping: m, From: q.From, To: q.To, Limit: q.Limit, Reverse: q.Kind == 2,
+		WithTotal: q.WithTotal, Hist: q.Hist}
+	if q.Kind == 4 {
+		fq.AggQ = []processor.AggQuery{{GroupBy: eLiteral(q.AggBy), Func: seq.AggFuncCount, Interval: int64(q.AggIv)}}
+	}
+	qpr, err := fracbuild.Search(fracs, fq, 0)
+	if err != nil {
+		return eErrList(err), ""
+	}
+	a := eAnswer{total: qpr.Total}
+	for _, id := range qpr.IDs {
+		a.ids = append(a.ids, [2]uint64{uint64(id.ID.MID), uint64(id.ID.RID)})
+	}
+	if q.Hist > 0 {
+		a.hist = map[uint64]uint64{}
+		for k, v := range qpr.Histogram {
+			a.hist[uint64(k)] = v
+		}
+	}
+	if q.Kind == 4 {
+		a.bins = map[eAggKey]uint64{}
+		if len(qpr.Aggs) != 1 {
+			return []uint64{999999, 4}, ""
+		}
+		a.notExists = uint64(qpr.Aggs[0].NotExists)
+		for k, v := range qpr.Aggs[0].SamplesByBin {
+			if k.Token == "_not_exists" { // legacy duplicate of NotExists
+				continue
+			}
+			key := eAggKey{0, k.Token}
+			if q.AggIv > 0 {
+				key.mid = uint64(k.MID)
+			}
+			a.bins[key] = uint64(v.Total)
+		}
+	}
+	return a.canon(q), ""
+}
+
+// ---------------------------------------------------------------- request generators
+
+func (c *eCorpus) search(e *eExpr, from, to uint64, limit int, asc, wt bool, tag string) {
+	k := 1
+	if asc {
+		k = 2
+	}
+	c.reqs = append(c.reqs, ereq{Kind: k, Text: e.text(), e: e, From: from, To: to, Limit: limit, WithTotal: wt, Tag: tag})
+}
+
+func (c *eCorpus) hist(e *eExpr, from, to, iv uint64, limit int) {
+	c.reqs = append(c.reqs, ereq{Kind: 3, Text: e.text(), e: e, From: from, To: to, Limit: limit, WithTotal: true, Hist: iv})
+}
+
+func (c *eCorpus) agg(e *eExpr, from, to uint64, by string, iv uint64) {
+	c.reqs = append(c.reqs, ereq{Kind: 4, Text: e.text(), e: e, From: from, To: to, AggBy: by, AggIv: iv})
+}
+
+func (c *eCorpus) fetch(tag string, ids ...[2]uint64) {
+	if len(ids) > 0 { // the real Fetcher indexes ids[0]: an empty list is not a request
+		c.reqs = append(c.reqs, ereq{Kind: 5, IDs: ids, Tag: tag})
+	}
+}
+
+func (c *eCorpus) id(rank int) [2]uint64 { d := c.docs[c.sorted[rank]]; return [2]uint64{d.mid, d.rid} }
+
+func (c *eCorpus) midRange() (uint64, uint64) {
+	return c.docs[c.sorted[len(c.sorted)-1]].mid, c.docs[c.sorted[0]].mid
+}
+
+var eLimits = []int{0, 1, 3, 10, 100, 1 << 30}
+
+// borderSearches: for query e, ranges whose border falls so that exactly n matching documents lie
+// above (To cut) or below (From cut) the border, n around every multiple of `block`.
+func (c *eCorpus) borderSearches(r *rng.R, e *eExpr, block int, tag string) {
+	var hit []int // matching docs by ID descending
+	for _, i := range c.sorted {
+		if e.match(&c.docs[i]) {
+			hit = append(hit, i)
+		}
+	}
+	lo, hi := c.midRange()
+	for k := block; k-2 < len(hit); k += block {
+		for _, n := range []int{k - 2, k - 1, k, k + 1} {
+			if n < 0 || n >= len(hit) {
+				continue
+			}
+			// hit[n] is the (n+1)-th newest: From = its MID keeps >= n+1 docs, To = its MID drops the n newer ones (modulo equal MIDs)
+			c.search(e, c.docs[hit[n]].mid, hi+1, rng.Pick(r, eLimits), r.Bool(), true, tag)
+			c.search(e, lo-1, c.docs[hit[n]].mid, rng.Pick(r, eLimits), r.Bool(), true, tag)
+			m := len(hit) - 1 - n // the same counted from the oldest
+			c.search(e, c.docs[hit[m]].mid, hi, rng.Pick(r, eLimits[:5]), r.Bool(), r.Bool(), tag)
+		}
+	}
+}
+
+// idBorderRequests: searches and fetches around ID-block borders (LID = rank+1; block borders at LID 4096*k).
+func (c *eCorpus) idBorderRequests(r *rng.R, e *eExpr) {
+	n := len(c.docs)
+	lo, hi := c.midRange()
+	for b := eIdsBlock; b-4 < n+1; b += eIdsBlock {
+		var ids [][2]uint64
+		for rank := b - 4; rank <= b+2; rank++ { // LIDs b-3 .. b+3
+			if rank < 0 || rank >= n {
+				continue
+			}
+			ids = append(ids, c.id(rank))
+			if rank >= b-3 && rank <= b {
+				m := c.docs[c.sorted[rank]].mid
+				c.search(e, m, hi, rng.Pick(r, eLimits), r.Bool(), true, "idborder")
+				c.search(e, lo, m, rng.Pick(r, eLimits), r.Bool(), true, "idborder")
+			}
+		}
+		c.fetch("idborder-desc", ids...)
+		sh := append([][2]uint64{}, ids...)
+		rng.Shuffle(r, sh)
+		c.fetch("idborder-shuffled", sh...)
+		c.fetch("idborder-absent-mixed", append(sh, [2]uint64{sh[0][0], sh[0][1] + 1}, [2]uint64{sh[0][0], 0})...)
+	}
+}
+
+// fetchRequests: present / absent / duplicate / mixed lists.
+func (c *eCorpus) fetchRequests(r *rng.R, n int) {
+	lo, hi := c.midRange()
+	exists := map[[2]uint64]bool{}
+	for _, d := range c.docs {
+		exists[[2]uint64{d.mid, d.rid}] = true
+	}
+	absent := func() [2]uint64 {
+		for {
+			var id [2]uint64
+			switch r.Intn(6) {
+			case 0:
+				id = [2]uint64{lo, 0} // smaller than every stored ID, MID inside the fraction
+			case 1:
+				id = [2]uint64{hi, ^uint64(0)} // larger than every stored ID
+			case 2:
+				id = [2]uint64{lo - 1, uint64(r.Intn(100))} // outside the fraction
+			case 3:
+				id = [2]uint64{hi + 1, uint64(r.Intn(100))}
+			default:
+				id = c.id(r.Intn(len(c.docs))) // MID of a stored document, neighbouring RID
+				id[1] += uint64(r.Range(1, 3))
+				if r.Bool() {
+					id[1] -= 4
+				}
+			}
+			if !exists[id] {
+				return id
+			}
+		}
+	}
+	for i := 0; i < n; i++ {
+		var ids [][2]uint64
+		k := r.Range(1, 12)
+		mode := r.Intn(5) // 0 present desc, 1 present random, 2 with duplicates, 3 absent only, 4 mixed
+		for j := 0; j < k; j++ {
+			switch {
+			case mode == 3 || (mode == 4 && r.Bool()):
+				ids = append(ids, absent())
+			case mode == 2 && j > 0 && r.Bool():
+				ids = append(ids, ids[r.Intn(len(ids))])
+			default:
+				ids = append(ids, c.id(r.Intn(len(c.docs))))
+			}
+		}
+		if mode == 0 {
+			sort.Slice(ids, func(a, b int) bool { return ids[b][0] < ids[a][0] || (ids[b][0] == ids[a][0] && ids[b][1] < ids[a][1]) })
+		}
+		c.fetch([]string{"present-desc", "present-random", "duplicates", "absent", "mixed"}[mode], ids...)
+	}
+	c.fetch("first-last", c.id(0), c.id(len(c.docs)-1))
+	c.fetch("absent-extremes", [2]uint64{lo, 0}, [2]uint64{hi, ^uint64(0)}, [2]uint64{lo - 1, 5}, [2]uint64{hi + 1, 5})
+}
+
+// randomRequests: random queries over the vocabulary (field -> some values) of the eCorpus.
+func (c *eCorpus) randomRequests(r *rng.R, n int, vocab map[string][]string, aggBy string) {
+	fs := make([]string, 0, len(vocab))
+	for f := range vocab {
+		fs = append(fs, f)
+	}
+	sort.Strings(fs)
+	var leaf func() *eExpr
+	leaf = func() *eExpr {
+		f := rng.Pick(r, fs)
+		v := rng.Pick(r, vocab[f])
+		switch r.Intn(8) {
+		case 0:
+			return ePre(f, v[:r.Intn(len(v)+1)])
+		case 1:
+			return &eExpr{Op: "suf", F: f, A: v[r.Intn(len(v)):]}
+		case 2:
+			i := r.Intn(len(v) + 1)
+			return &eExpr{Op: "wild", F: f, A: v[:i], B: v[i+r.Intn(len(v)-i+1):]}
+		case 3:
+			return eTok(f, v+"q") // unknown token
+		}
+		return eTok(f, v)
+	}
+	var gen func(d int) *eExpr
+	gen = func(d int) *eExpr {
+		if d == 0 || r.Chance(2, 5) {
+			if r.Chance(1, 12) {
+				return eAll()
+			}
+			return leaf()
+		}
+		switch r.Intn(5) {
+		case 0:
+			return eNot(gen(d - 1))
+		case 1, 2:
+			return eAnd(gen(d-1), gen(d-1))
+		}
+		return eOr(gen(d-1), gen(d-1))
+	}
+	lo, hi := c.midRange()
+	for i := 0; i < n; i++ {
+		e := gen(2)
+		from, to := lo-1, hi+1
+		if r.Chance(2, 3) {
+			a, b := c.docs[r.Intn(len(c.docs))].mid, c.docs[r.Intn(len(c.docs))].mid
+			if a > b {
+				a, b = b, a
+			}
+			from, to = a+uint64(r.Intn(3))-1, b+uint64(r.Intn(3))-1 // may become empty (from > to)
+		}
+		switch x := r.Intn(10); {
+		case x < 6:
+			c.search(e, from, to, rng.Pick(r, eLimits), r.Bool(), r.Chance(3, 4), "random")
+		case x < 8:
+			c.hist(e, from, to, rng.Pick(r, []uint64{1, 7, 100, 1000, 100000}), rng.Pick(r, eLimits[:4]))
+		default:
+			c.agg(e, from, to, aggBy, rng.Pick(r, []uint64{0, 0, 50, 5000}))
+		}
+	}
+}
+
+// ---------------------------------------------------------------- eCorpus shapes
+
+// lid64k: tokens with exactly 65536, 65537 and 131072 postings; field k starts with a small token so
+// that the big ones begin in the middle of a LID block, field m starts with the 65536 one (aligned).
+func eGenLid64k(r *rng.R, ndocs int) *eCorpus {
+	c := &eCorpus{shape: "lid64k"}
+	small := [3]int{r.Range(1, 60), r.Range(1, 60), r.Range(1, 60)}
+	step := uint64(r.Range(1, 2)) // 2: every MID is shared by two documents
+	off := [6]int{r.Intn(ndocs), r.Intn(ndocs), r.Intn(ndocs), r.Intn(ndocs), r.Intn(ndocs), r.Intn(ndocs)}
+	big := 2 * eLidCap
+	if ndocs >= 3*eLidCap+1000 && r.Bool() {
+		big = 3 * eLidCap
+	}
+	c.params = map[string]any{"docs": ndocs, "small": small, "mid_step_div": step, "window_offsets": off, "biggest": big}
+	perm := make([]int, ndocs) // scattered membership for the tokens "d" of k and "a" of m
+	for i := range perm {
+		perm[i] = i
+	}
+	rng.Shuffle(r, perm)
+	sc := make([]uint8, ndocs)
+	for _, i := range perm[:eLidCap+1] {
+		sc[i] |= 1
+	}
+	for _, i := range perm[ndocs-eLidCap:] {
+		sc[i] |= 2
+	}
+	in := func(i, start, cnt int) bool { return (i-start+ndocs)%ndocs < cnt } // cyclic window
+	for i := 0; i < ndocs; i++ {
+		var t []string
+		add := func(cond bool, s string) {
+			if cond {
+				t = append(t, s)
+			}
+		}
+		add(in(i, off[0], small[0]), "k:a")
+		add(in(i, off[1], eLidCap), "k:b") // 65536, contiguous
+		add(in(i, off[2], small[1]), "k:c")
+		add(sc[i]&1 != 0, "k:d") // 65537, scattered
+		add(in(i, off[3], big), "k:e")
+		add(in(i, off[4], small[2]), "k:f")
+		add(sc[i]&2 != 0, "m:a") // 65536, scattered, first token of its field: fills block 0 exactly
+		add(in(i, off[5], big), "m:b")
+		add(in(i, off[0], eLidCap+1), "m:c")
+		add(i%1000 == 3, "m:d")
+		add(i%7 != 0, fmt.Sprintf("g:v%d", i%5))
+		c.add(eBaseMID+uint64(i)/step, eRid(i), fmt.Sprintf(`{"i":%d}`, i), t...)
+	}
+	c.finish()
+	lo, hi := c.midRange()
+	bigs := []*eExpr{eTok("k", "b"), eTok("k", "d"), eTok("k", "e"), eTok("m", "a"), eTok("m", "b"), eTok("m", "c"), eAll()}
+	for _, e := range bigs {
+		c.search(e, lo, hi, 10, false, true, "full")
+		c.search(e, 0, ^uint64(0), 7, true, true, "full")
+		c.borderSearches(r, e, eLidCap, "lidborder")
+	}
+	c.search(eTok("k", "e"), lo, hi, 1<<30, r.Bool(), true, "limit-above-hits")
+	c.search(eTok("k", "d"), lo, hi, 70000, r.Bool(), false, "limit-above-hits")
+	mid := func() uint64 { return lo + uint64(r.Intn(int(hi-lo+1))) }
+	combos := []*eExpr{eOr(eTok("k", "b"), eTok("k", "d")), eAnd(eTok("k", "e"), eTok("m", "c")), eNot(eTok("k", "e")), eOr(eTok("k", "a"), eTok("k", "f")),
+		eAnd(eTok("k", "e"), eNot(eTok("m", "b"))), eAnd(eTok("m", "a"), eTok("k", "d")), ePre("k", ""), eOr(ePre("m", "a"), eTok("m", "d")), eNot(eAll()),
+		eAnd(eNot(eTok("m", "a")), eNot(eTok("k", "d"))), eTok("k", "c"), eTok("m", "d"), eTok("k", "zz")}
+	for _, e := range combos {
+		c.search(e, lo, hi, rng.Pick(r, eLimits[:5]), r.Bool(), true, "combo")
+		a, b := mid(), mid()
+		c.search(e, min(a, b), max(a, b), rng.Pick(r, eLimits[:5]), r.Bool(), true, "combo-range")
+	}
+	c.borderSearches(r, eNot(eTok("k", "e")), eLidCap, "lidborder-not") // only when there are >= 65534 such documents
+	for _, e := range []*eExpr{eTok("k", "e"), eTok("m", "a"), eAll(), eAnd(eTok("k", "d"), eTok("m", "b"))} {
+		c.hist(e, lo, hi, uint64(ndocs)/uint64(r.Range(3, 30))+1, 3)
+		c.hist(e, mid(), hi, 1000, 0)
+		c.agg(e, lo, hi, "g", 0)
+		c.agg(e, lo, mid(), "g", uint64(ndocs)/4)
+	}
+	c.idBorderRequests(r, rng.Pick(r, bigs))
+	c.fetchRequests(r, 12)
+	return c
+}
+
+// ids4k: the number of stored IDs (documents + the system ID at LID 0) and the number of documents
+// sit exactly at / next to a multiple of 4096.
+func eGenIds4k(r *rng.R, k, off int) *eCorpus {
+	n := eIdsBlock*k + off
+	c := &eCorpus{shape: "ids4k", params: map[string]any{"k": k, "off": off, "docs": n}}
+	div := uint64(r.Range(1, 4)) // up to 4 documents share a MID: borders are decided by RIDs
+	vocab := map[string][]string{"f": nil, "s": nil}
+	for i := 0; i < 13; i++ {
+		vocab["f"] = append(vocab["f"], fmt.Sprintf("v%d", i))
+	}
+	for i := 0; i < 200; i++ {
+		vocab["s"] = append(vocab["s"], fmt.Sprintf("s%03d", i))
+	}
+	c.params["mid_div"] = div
+	for i := 0; i < n; i++ {
+		t := []string{"f:" + vocab["f"][i%13], "s:" + vocab["s"][(i*7)%200]}
+		if i%4 != 1 {
+			t = append(t, fmt.Sprintf("g:g%d", i%6))
+		}
+		c.add(eBaseMID+uint64(i)/div, eRid(i), `{"i":`+fmt.Sprint(i)+`,"p":"`+strings.Repeat("x", int(eRid(i)%57))+`"}`, t...)
+	}
+	c.finish()
+	c.idBorderRequests(r, eAll())
+	c.idBorderRequests(r, eTok("f", "v3"))
+	c.borderSearches(r, eAll(), eIdsBlock, "idborder-all")
+	c.randomRequests(r, 40, vocab, "g")
+	c.fetchRequests(r, 15)
+	return c
+}
+
+// code4 is the 4-letter base-7 code of i (order preserving), the head of every dictionary token.
+func eCode4(i int) string {
+	b := [4]byte{}
+	for p := 3; p >= 0; p-- {
+		b[p] = "abcdefg"[i%7]
+		i /= 7
+	}
+	return string(b[:])
+}
+
+// dict16k: field d has ntok tokens whose total size is exactly `size` bytes (token blocks of the
+// sealed dictionary: size/16384+1 blocks of ntok/blocks tokens); `big` has ONE token of 20000 bytes,
+// `tri` three tokens of 9000 bytes (fewer tokens than blocks: defect #9 when the repair is reverted).
+func eGenDict16k(r *rng.R, size int) *eCorpus {
+	c := &eCorpus{shape: "dict16k"}
+	ntok := r.Range(size/40, min(size/6, 2400))
+	c.params = map[string]any{"size": size, "ntok": ntok}
+	toks := make([]string, ntok)
+	for i := range toks {
+		l := size / ntok
+		if i < size%ntok {
+			l++
+		}
+		toks[i] = eCode4(i) + strings.Repeat(string("xyz"[i%3]), l-4)
+	}
+	bigTok := "q" + strings.Repeat("w", 19998) + "e"
+	tri := []string{strings.Repeat("a", 9000), strings.Repeat("a", 8999) + "b", "b" + strings.Repeat("c", 8999)}
+	ndocs := ntok * r.Range(1, 3)
+	for i := 0; i < ndocs; i++ {
+		t := []string{"d:" + toks[i%ntok], fmt.Sprintf("f:v%d", i%9)}
+		if i%5 == 0 {
+			t = append(t, "d:"+toks[(i*31+7)%ntok])
+		}
+		if i%3 != 0 {
+			t = append(t, fmt.Sprintf("g:g%d", i%4))
+		}
+		if i%97 == 5 {
+			t = append(t, "big:"+bigTok)
+		}
+		if i%50 == 1 {
+			t = append(t, "tri:"+tri[(i/50)%3])
+		}
+		c.add(eBaseMID+uint64(i)*3, eRid(i), fmt.Sprintf(`{"i":%d,"pad":"%s"}`, i, strings.Repeat("-", i%40)), t...)
+	}
+	c.finish()
+	lo, hi := c.midRange()
+	blocks := size/eTokBlock + 1
+	per := max(1, ntok/blocks)
+	nxt := min(per, ntok-1) // first token of the second block (when there is one)
+	sq := func(e *eExpr, tag string) { c.search(e, lo, hi, rng.Pick(r, eLimits), r.Bool(), true, tag) }
+	// tokens at the block borders: last of a block (= the block's max value), first of the next
+	for b := per; b-1 < ntok; b += per {
+		for _, i := range []int{b - 2, b - 1, b, b + 1} {
+			if i < 0 || i >= ntok {
+				continue
+			}
+			t := toks[i]
+			sq(eTok("d", t), "dict-border-exact")
+			for _, pl := range []int{1, 2, 3, 4, 5, len(t) - 1, len(t)} {
+				if pl <= len(t) {
+					sq(ePre("d", t[:pl]), "dict-border-prefix")
+				}
+			}
+			sq(&eExpr{Op: "wild", F: "d", A: t[:3], B: t[len(t)-1:]}, "dict-border-wild")
+			sq(eTok("d", t[:len(t)-1]), "dict-border-absent") // not a token (shorter)
+			sq(eTok("d", t+"x"), "dict-border-absent")
+		}
+	}
+	for _, s := range []string{"x", "y", "z", "zz", "gx"} {
+		sq(&eExpr{Op: "suf", F: "d", A: s}, "dict-suffix")
+	}
+	sq(ePre("d", ""), "dict-all")
+	sq(ePre("d", "0"), "dict-below-min")
+	sq(ePre("d", "h"), "dict-above-max")
+	sq(eTok("d", "aaaa"), "dict-short")
+	sq(eOr(eTok("d", toks[0]), eTok("d", toks[ntok-1])), "dict-first-last")
+	sq(eAnd(ePre("d", toks[per-1][:2]), eNot(eTok("f", "v1"))), "dict-combo")
+	// the huge tokens
+	sq(ePre("big", "q"), "big-prefix")
+	sq(ePre("big", "qwwwwwwww"), "big-prefix")
+	sq(eTok("big", bigTok), "big-exact")
+	sq(&eExpr{Op: "suf", F: "big", A: "we"}, "big-suffix")
+	sq(ePre("tri", "a"), "tri-prefix")
+	sq(ePre("tri", strings.Repeat("a", 8999)), "tri-prefix-long")
+	sq(eTok("tri", tri[1]), "tri-exact")
+	sq(ePre("tri", "b"), "tri-prefix")
+	sq(ePre("tri", ""), "tri-all")
+	c.hist(ePre("d", toks[nxt][:2]), lo, hi, 500, 2)
+	c.agg(ePre("d", toks[per-1][:3]), lo, hi, "g", 0)
+	c.agg(ePre("tri", ""), lo, hi, "g", 1000)
+	vocab := map[string][]string{"d": {toks[0], toks[per-1], toks[nxt], toks[ntok/2], toks[ntok-1]}, "f": {"v0", "v1", "v8"}}
+	c.randomRequests(r, 30, vocab, "g")
+	c.fetchRequests(r, 8)
+	return c
+}
+
+// small: tiny random corpora.
+func eGenSmall(r *rng.R) *eCorpus {
+	n := r.Range(1, 80)
+	c := &eCorpus{shape: "small", params: map[string]any{"docs": n}}
+	vocab := map[string][]string{"a": {"x", "y", "xy", "xyz", "z1"}, "b": {"0", "1", "10", "101"}, "c": {"p", "q"}}
+	span := uint64(r.Range(1, 200))
+	used := map[[2]uint64]bool{}
+	for i := 0; i < n; i++ {
+		var t []string
+		for _, f := range []string{"a", "b", "c"} {
+			if r.Chance(3, 4) {
+				t = append(t, f+":"+rng.Pick(r, vocab[f]))
+			}
+		}
+		if r.Chance(1, 6) {
+			t = append(t, "a:"+rng.Pick(r, vocab["a"])) // a second value (possibly the same one)
+		}
+		if r.Chance(2, 3) {
+			t = append(t, fmt.Sprintf("g:g%d", r.Intn(4)))
+		}
+		id := [2]uint64{eBaseMID + uint64(r.Intn(int(span))), uint64(r.Intn(5))}
+		for used[id] {
+			id[1]++
+		}
+		used[id] = true
+		c.add(id[0], id[1], fmt.Sprintf(`{"n":%d,"s":"%s"}`, i, strings.Repeat("ab", r.Intn(30))), eDedup(t)...)
+	}
+	c.finish()
+	c.randomRequests(r, 40, vocab, "g")
+	c.fetchRequests(r, 8)
+	return c
+}
+
+func eDedup(t []string) []string {
+	seen := map[string]bool{}
+	out := t[:0]
+	for _, s := range t {
+		if !seen[s] {
+			seen[s] = true
+			out = append(out, s)
+		}
+	}
+	return out
+}
+
+// ---------------------------------------------------------------- running one eCorpus
+
+type ecase struct {
+	term, class string
+	nontrivial  bool
+	input, impl any
+}
+
+type eresult struct {
+	cases  []ecase
+	viols  []casefile.Violation
+	counts []string
+}
+
+func (c *eCorpus) describe() map[string]any {
+	return map[string]any{"shape": c.shape, "params": c.params, "corpus_seed": c.seed, "docs": len(c.docs), "config": c.cfg}
+}
+
+func eRunCorpus(tmp string, idx int, c *eCorpus) (res eresult) {
+	desc := c.describe()
+	res.counts = append(res.counts, "shape:"+c.shape, fmt.Sprintf("cfg:skip_sort_docs=%v", c.cfg.SkipSortDocs),
+		fmt.Sprintf("cfg:cache=%d", c.cfg.Cache1), fmt.Sprintf("cfg:cache_reloaded=%d", c.cfg.Cache2), fmt.Sprintf("cfg:doc_block=%d", c.cfg.DocBlockSize))
+	viol := func(fp, what string, in any) {
+		res.viols = append(res.viols, casefile.Violation{Fingerprint: fp, What: what, Input: in})
+	}
+	defer func() {
+		if p := recover(); p != nil {
+			viol("form-panic:harness", fmt.Sprintf("panic: %v\n%s", p, debug.Stack()), desc)
+		}
+	}()
+	dir := filepath.Join(tmp, fmt.Sprintf("c%04d", idx))
+	defer os.RemoveAll(dir)
+	r := rng.New(c.seed ^ 0x5eed) // cache eviction schedule and arrival order
+	m := c.mapping()
+
+	fm, err := fracbuild.NewFM(dir, c.cfg.mod(c.cfg.Cache1))
+	if err != nil {
+		viol("harness-error", "NewFM: "+err.Error(), desc)
+		return
+	}
+	// arrival: several bulks, MIDs out of order across bulks
+	order := make([]int, len(c.docs))
+	for i := range order {
+		order[i] = i
+	}
+	nb := c.cfg.Bulks
+	switch c.cfg.Order {
+	case 0: // bulk b holds the documents i = b (mod nb)
+		sort.SliceStable(order, func(a, b int) bool { return order[a]%nb < order[b]%nb })
+	case 1:
+		for i := range order {
+			order[i] = len(order) - 1 - i
+		}
+	default:
+		rng.Shuffle(r, order)
+	}
+	for b := 0; b < nb; b++ {
+		part := order[len(order)*b/nb : len(order)*(b+1)/nb]
+		docs := make([]fracbuild.Doc, len(part))
+		for j, i := range part {
+			d := c.docs[i]
+			docs[j] = fracbuild.Doc{MID: d.mid, RID: d.rid, Body: d.body, Tokens: d.toks}
+		}
+		if err := fracbuild.Append(fm, docs); err != nil {
+			viol("harness-error", "Append: "+err.Error(), desc)
+			return
+		}
+		if b+1 < nb && r.Bool() { // a search between bulks: the active index merges its queues piecewise
+			eAsk(fracbuild.Fracs(fm), m, &ereq{Kind: 1, Text: "*", To: ^uint64(0), Limit: 3})
+		}
+	}
+
+	forms := [3][][]uint64{}
+	names := [3]string{"active", "sealed", "reloaded"}
+	batch := func(k int, fm *fracmanager.FracManager) bool {
+		fracs := fracbuild.Fracs(fm)
+		if len(fracs) != 1 {
+			viol("harness-error", fmt.Sprintf("%s: expected one fraction, got %d", names[k], len(fracs)), desc)
+			return false
+		}
+		forms[k] = make([][]uint64, len(c.reqs))
+		for i := range c.reqs {
+			switch r.Intn(8) { // cache pressure between requests
+			case 0, 1:
+				fm.VerifC03CacheEvict()
+			case 2:
+				fm.ResetCacheForTests()
+			}
+			var what string
+			if forms[k][i], what = eAsk(fracs, m, &c.reqs[i]); what != "" {
+				viol("form-panic:"+names[k], what, map[string]any{"corpus": desc, "request": c.reqs[i]})
+			}
+		}
+		return true
+	}
+	if !batch(0, fm) {
+		return
+	}
+	var sealPanic any
+	func() {
+		defer func() {
+			if sealPanic = recover(); sealPanic != nil {
+				sealPanic = fmt.Sprintf("panic during seal: %v\n%s", sealPanic, debug.Stack())
+			}
+		}()
+		fracbuild.Seal(fm)
+	}()
+	if sealPanic != nil {
+		viol("seal-panic", sealPanic.(string), desc)
+		return
+	}
+	if !batch(1, fm) {
+		return
+	}
+	fracbuild.Close(fm)
+	fm2, err := fracbuild.NewFM(dir, c.cfg.mod(c.cfg.Cache2))
+	if err != nil {
+		viol("reload-error", "second NewFM on the sealed directory: "+err.Error(), desc)
+		return
+	}
+	if !batch(2, fm2) {
+		return
+	}
+	fracbuild.Close(fm2)
+
+	manyIDs := len(c.docs)+1 > eIdsBlock
+	for i := range c.reqs {
+		q := &c.reqs[i]
+		o := c.oracle(q)
+		class := [...]string{"", "form/search", "form/search", "form/hist", "form/agg", "form/fetch"}[q.Kind]
+		nonEmpty := len(o) > 2 && (o[0] > 0 || o[1] > 0)
+		span := manyIDs
+		if q.Kind == 5 {
+			nonEmpty = false
+			for j := 1; j < len(o); j++ {
+				nonEmpty = nonEmpty || o[j] != 0
+			}
+		} else if q.Kind == 4 {
+			nonEmpty = len(o) > 3 && (o[2] > 0 || o[3] > 0) // notExists or bins
+			span = span || q.e.span(c)
+		} else {
+			span = span || q.e.span(c)
+		}
+		term := fmt.Sprintf("CForm %d%%N %s %s %s %s", q.Kind, casefile.NList(forms[0][i]), casefile.NList(forms[1][i]),
+			casefile.NList(forms[2][i]), casefile.NList(o))
+		var impl any = map[string]any{"active": forms[0][i], "sealed": forms[1][i], "reloaded": forms[2][i]}
+		if len(forms[0][i]) > 40 {
+			impl = "see the case term"
+		}
+		res.cases = append(res.cases, ecase{term, class, nonEmpty && span, map[string]any{"corpus": desc, "request": q}, impl})
+		res.counts = append(res.counts, fmt.Sprintf("kind:%d", q.Kind))
+		if q.Tag != "" {
+			res.counts = append(res.counts, "req:"+q.Tag)
+		}
+		if nonEmpty {
+			res.counts = append(res.counts, "answer:nonempty")
+		} else {
+			res.counts = append(res.counts, "answer:empty")
+		}
+	}
+	return res
+}
+
+// ---------------------------------------------------------------- driver
+
+func runE2E(w *casefile.Writer, r *rng.R, tier string) {
+	defer runtime.GOMAXPROCS(runtime.GOMAXPROCS(min(6, runtime.NumCPU())))
+	thorough := tier == "thorough"
+	type job struct {
+		seed uint64
+		gen  func(*rng.R) *eCorpus
+	}
+	var jobs []job
+	add := func(gen func(*rng.R) *eCorpus) { jobs = append(jobs, job{r.U64(), gen}) }
+	// quick: 1 lid64k, 4 ids4k (one per offset), 4 dict16k (one per threshold), 10 small
+	nl, nsmall := 1, 10
+	sizes := []int{eTokBlock, eTokBlock - 1, eTokBlock + 1, 3 * eTokBlock}
+	if thorough {
+		nl, nsmall = 6, 60
+		sizes = append(sizes, 2*eTokBlock, 2*eTokBlock-1, 3*eTokBlock+1, 4*eTokBlock-1, eTokBlock, eTokBlock+1, 5*eTokBlock)
+	}
+	for i := 0; i < nl; i++ {
+		i := i
+		add(func(r *rng.R) *eCorpus {
+			n := 2*eLidCap + r.Range(3000, 9000)
+			if thorough && i > 0 {
+				n = r.Range(2*eLidCap+1, 300000)
+			}
+			return eGenLid64k(r, n)
+		})
+	}
+	for rep := 0; rep < map[bool]int{false: 1, true: 3}[thorough]; rep++ {
+		for _, off := range []int{-2, -1, 0, 1} { // IDsTotal = docs+1: -1 -> IDsTotal = 4096k, 0 -> docs = 4096k
+			off := off
+			add(func(r *rng.R) *eCorpus { return eGenIds4k(r, r.Range(1, 3), off) })
+		}
+	}
+	for _, s := range sizes {
+		s := s
+		add(func(r *rng.R) *eCorpus { return eGenDict16k(r, s) })
+	}
+	for i := 0; i < nsmall; i++ {
+		add(genSmall)
+	}
+
+	tmp, err := os.MkdirTemp("", "verif-hC03-")
+	if err != nil {
+		w.Violate("harness-error", "MkdirTemp: "+err.Error(), nil)
+		return
+	}
+	defer os.RemoveAll(tmp)
+
+	results := make([]eresult, len(jobs))
+	var wg sync.WaitGroup
+	next := make(chan int, len(jobs))
+	for i := range jobs {
+		next <- i
+	}
+	close(next)
+	workers := 6
+	if thorough {
+		workers = 3 // several 300k-document corpora at once would need too much memory
+	}
+	for k := 0; k < workers; k++ {
+		wg.Add(1)
+		go func() {
+			defer wg.Done()
+			for i := range next {
+				cr := rng.New(jobs[i].seed)
+				c := jobs[i].gen(cr)
+				c.seed = jobs[i].seed
+				c.cfg = eGenCfg(cr, len(c.docs))
+				results[i] = eRunCorpus(tmp, i, c)
+			}
+		}()
+	}
+	wg.Wait()
+	for _, res := range results { // single goroutine, eCorpus order: deterministic output
+		for _, k := range res.counts {
+			w.Count(k)
+		}
+		for _, v := range res.viols {
+			w.Violate(v.Fingerprint, v.What, v.Input)
+		}
+		for _, c := range res.cases {
+			w.Add(c.term, c.class, c.nontrivial, c.input, c.impl)
+		}
+	}
+}
